@@ -23,6 +23,7 @@ func checkC17(c *Ctx) {
 	r.Rule("R17.4", "success registers everything under the new level's value: the level list, name table, parse table (normalised title), the non-empty short tags, the treated-as table under treatAs < MaxLevel, the error-device table under the request flag, all keyed by the levelValue parameter")
 	r.Rule("R17.5", "variadic-bool options default to on: in every function of the package with a ...bool parameter the picked value is true when no argument is given")
 	r.Rule("R17.6", "tag widths: every literal in shortTagMap[n] is n bytes long for n in 1..5; ShortTag's fallback returns a string of exactly `length` bytes on every path (the name itself when it has that length, a slice [:length] of the name padded with at least length spaces, or length filler characters)")
+	r.Rule("R09.2", "(shared with C09) after a successful registration the level uses the given tags at once: nothing on the print path keeps a tag, name or colour computed for a level in package-level state (a cache filled before the registration would go on answering)")
 	r.Rule("R01.3", "(shared with C01) the admission rule consults the treated-as table for every severity value: decision function of Level.Enabled equals the property's rule")
 	r.Rule("R03.1", "(shared with C03) the routing consults the error-device table for every severity value: decision function of dualWriter.Get equals the documented routing; table reader and writers agree")
 	r.Rule("R03.2", "(shared with C03) fallback to the package default writers")
@@ -42,6 +43,7 @@ func checkC17(c *Ctx) {
 		c17Register(c, p, m)
 		c17Variadic(c, p, m)
 		c17Tags(c, p, m)
+		c09Globals(c, p, m)
 		tagStoresFromRegistration(c, p)
 		// "is gated as the level it is treated as and is routed to the error device if so requested":
 		// the readers of the registry must consult it for EVERY level value (shared obligations)
@@ -530,6 +532,111 @@ func c17Register(c *Ctx, p *Prog, m *Model) {
 	}
 	_ = lv
 	_ = title
+	// every further name a registration puts into the parse table (aliases, tags used as names ...) was tested to be
+	// free first: the store's key is dominated by the miss edge of a lookup of that very name, or is an element of
+	// a local list every element of which was so tested before it was appended
+	pg := p.Global(p.Slog, "stringToLevel")
+	var freeAt func(v ssa.Value, b *ssa.BasicBlock, depth int) bool
+	var listFree func(sv ssa.Value, depth int, seen map[ssa.Value]bool) bool
+	freeAt = func(v ssa.Value, b *ssa.BasicBlock, depth int) bool {
+		if depth > 6 {
+			return false
+		}
+		for _, g := range guardsOf(b) {
+			cond, neg := normCond(g.If.Cond)
+			if ex, ok := cond.(*ssa.Extract); ok && ex.Index == 1 && (g.Succ == 0) == neg {
+				if lk, ok := ex.Tuple.(*ssa.Lookup); ok {
+					if gg, ok := globalLoad(lk.X); ok && gg == pg && strip(lk.Index) == strip(v) {
+						return true
+					}
+				}
+			}
+		}
+		switch x := strip(v).(type) {
+		case *ssa.UnOp:
+			if ia, ok := x.X.(*ssa.IndexAddr); ok && x.Op == token.MUL {
+				return listFree(ia.X, depth+1, map[ssa.Value]bool{})
+			}
+		case *ssa.Phi:
+			for i, e := range x.Edges {
+				if e == ssa.Value(x) {
+					continue
+				}
+				if !freeAt(e, x.Block().Preds[i], depth+1) {
+					return false
+				}
+			}
+			return true
+		}
+		return false
+	}
+	listFree = func(sv ssa.Value, depth int, seen map[ssa.Value]bool) bool {
+		sv = strip(sv)
+		if seen[sv] {
+			return true
+		}
+		seen[sv] = true
+		if depth > 8 {
+			return false
+		}
+		switch x := sv.(type) {
+		case *ssa.Const:
+			return x.IsNil()
+		case *ssa.Phi:
+			for _, e := range x.Edges {
+				if !listFree(e, depth+1, seen) {
+					return false
+				}
+			}
+			return true
+		case *ssa.Call:
+			if !isBuiltinCall(x, "append") || !listFree(x.Common().Args[0], depth+1, seen) {
+				return false
+			}
+			sl, ok := x.Common().Args[1].(*ssa.Slice)
+			if !ok {
+				return false
+			}
+			al, ok := sl.X.(*ssa.Alloc)
+			if !ok {
+				return false
+			}
+			for _, ref := range *al.Referrers() {
+				if ia, ok := ref.(*ssa.IndexAddr); ok {
+					for _, r2 := range *ia.Referrers() {
+						if st, ok := r2.(*ssa.Store); ok && !freeAt(st.Val, x.Block(), depth+1) {
+							return false
+						}
+					}
+				}
+			}
+			return true
+		}
+		return false
+	}
+	for fn := range reach {
+		for _, b := range fn.Blocks {
+			for _, in := range b.Instrs {
+				mu, ok := in.(*ssa.MapUpdate)
+				if !ok {
+					continue
+				}
+				if gg, ok := globalLoad(mu.Map); !ok || gg != pg {
+					continue
+				}
+				k := strip(mu.Key)
+				if src, ok := isToLower(k); ok {
+					if _, isPrm := strip(src).(*ssa.Parameter); isPrm {
+						continue // the title itself: judged by refusal:title-test
+					}
+				}
+				if _, isPrm := k.(*ssa.Parameter); isPrm {
+					continue
+				}
+				r.Check(freeAt(mu.Key, b, 0), "R17.3", "refusal:extra-name:"+shortName(fn), p.Pos(instrPos(mu)), "a further name is entered into the parse table only after it was found free", "a registration enters a further name into the parse table without having tested that the name is free: an existing level's name is silently re-pointed to the new level (its printed name then parses to another level), and the registration still succeeds")
+			}
+		}
+	}
 	r.Check(valTest, "R17.3", "refusal:value-test", p.FuncPos(rl), "a numeric value already in allLevels is refused", "RegisterLevel no longer tests the numeric value against allLevels")
 	r.Check(titleTest, "R17.3", "refusal:title-test", p.FuncPos(rl), "a title already in the parse table is refused", "RegisterLevel no longer tests the title against the parse table")
 
